@@ -219,7 +219,7 @@ func ruleRelationalOrder(c *Ctx) {
 		r := is.Run(Query{Target: callPred(is, "executor.WriteCSM"), Barrier: callPred(is, "(*utils/io.ColumnSeries).Project")})
 		c.Floor(r3, is.Name, "WriteCSM sites", r.TargetSites, 1)
 		c.reportHits(r3, is, "project-onto-target-columns-before-write", r, "the selected series is projected onto the target's columns before it is written", "INSERT writes un-projected columns")
-		c.checkErrorsNotDropped(r3, []string{"executor.WriteCSM", "(*sqlparser.SelectRelation).Materialize"}, func(f *Func) bool { return f.Key == "(*sqlparser.InsertIntoStatement).Materialize" }, 2,
+		c.checkErrorsNotDropped(r3, []string{"executor.WriteCSM", "(*sqlparser.SelectRelation).Materialize"}, c.closureScope("(*sqlparser.InsertIntoStatement).Materialize"), 2,
 			"a failed select or write must fail the INSERT", false)
 	}
 }
@@ -276,7 +276,7 @@ func ruleAggRegistry(c *Ctx) {
 			return true
 		}
 		info := newFn.Pkg.TypesInfo
-		recv := info.ObjectOf(newFn.Decl.Recv.List[0].Names[0])
+		recv := objOf(info, newFn.Decl.Recv.List[0].Names[0])
 		fresh := true
 		walkAll(newFn.Decl.Body, func(k ast.Node) bool {
 			if r, ok := k.(*ast.ReturnStmt); ok && len(r.Results) >= 1 {
